@@ -2,8 +2,8 @@ SPECIFICATION Spec
 CONSTANTS
   Indexes = {1}
   Ids = {1, 2, 3}
-  Toks = {"a", "b"}
-  Metrics = {"f"}
+  Toks = {"a"}
+  Metrics = {"f", "q"}
   Dim = 2
   Caps = {1}
   Reqs = {1}
@@ -29,5 +29,7 @@ INVARIANTS
   NoPanic
   NoInternalError
 PROPERTIES
+  BuildKeepsItems
+  MetricChange
   OthersUntouched
 CHECK_DEADLOCK FALSE
